@@ -136,6 +136,39 @@ def mutate(rng, w, pool):
     return bytes(w[:3000])
 
 
+def changed_pattern_words(rng, n):
+    """words of the languages of every regular expression whose pattern text differs between the baseline snapshot and the current tree - sampled from BOTH versions
+    (a word the old pattern admits and the new one does not, or the reverse, is exactly where the two behave differently)"""
+    import json
+    import corpus_gen
+    import gen_regexes
+    import regex_probe
+    try:
+        env = dict(os.environ, PYTHONPATH=BASE_SRC + os.pathsep + HERE, PYTHONHASHSEED="0", PYTHONDONTWRITEBYTECODE="1")
+        p = subprocess.run([sys.executable, os.path.join(HERE, "basesrv.py"), "--patterns"], stdout=subprocess.PIPE, stderr=subprocess.DEVNULL, env=env, timeout=120)
+        base = {k: bytes.fromhex(v) for k, v in json.loads(p.stdout.decode()).items()}
+        cur = {name: pat for name, pat, _ in gen_regexes.collect()}
+    except Exception:  # noqa: BLE001
+        return [], []
+    out, names = [], []
+    for name in sorted(set(base) | set(cur)):
+        if base.get(name) == cur.get(name):
+            continue
+        names.append(name)
+        for pat in (base.get(name), cur.get(name)):
+            if pat is None:
+                continue
+            try:
+                r, _ng = gen_regexes.translate(pat, name)
+            except Exception:  # noqa: BLE001
+                continue
+            for _ in range(n):
+                w = regex_probe.sample(r, rng)
+                if 0 < len(w) < 2500:
+                    out.append(w if rng.random() < 0.4 else corpus_gen.embed(rng, w))
+    return out, names
+
+
 def seeds(rng, n):
     import corpus_gen
     import stacks
@@ -183,7 +216,9 @@ def search(rng, drift_keys, seconds, log=lambda s: None):
                 seen_diff.add(it)
                 diffs.append((it, len(trail)))
     try:
-        sd = seeds(rng, 400)
+        words, changed = changed_pattern_words(rng, 150)
+        stats["changed_patterns"] = changed
+        sd = words + seeds(rng, 400)
         for i in range(0, len(sd), 100):
             batch([(d, rng.choice(depth_choices)) for d in sd[i:i + 100]])
             if time.time() - t0 > seconds * 0.6:
